@@ -131,6 +131,53 @@ pub fn run(rep: &Report) -> i32 {
             Err((text, o)) => rep.violation("C09:not-compiled", format!("counter-blind for_while program for width {w} not compiled: {o:?}"), json!({"kind": "compile", "program": text, "expect": "accept", "observed": "reject"})),
         }
     }
+    // two loop functions in one program whose bodies have the same text while their parameter lists differ (roles of
+    // accumulator and context exchanged; counters of different widths), in both orders: each loop must run its own
+    // function.  Expected values computed by hand from the statement; every program also runs with one expected
+    // value changed, which must fail
+    {
+        let body = "{\n    let (borrow, next): (bool, u8) = jet::subtract_8(level, rate);\n    match borrow {\n        true => Left(level),\n        false => Right(next),\n    }\n}\n";
+        let drain = format!("fn drain(level: u8, rate: u8, i: u2) -> Either<u8, u8> {body}");
+        let throttle = format!("fn throttle(rate: u8, level: u8, i: u2) -> Either<u8, u8> {body}");
+        let use_drain = |want: u8| format!("    let a: Either<u8, u8> = for_while::<drain>(10, 3);\n    assert!(jet::eq_8(unwrap_left::<u8>(a), {want}));\n");
+        let use_throttle = |want: u8| format!("    let b: Either<u8, u8> = for_while::<throttle>(3, 10);\n    assert!(jet::eq_8(unwrap_right::<u8>(b), {want}));\n");
+        let cbody = "{\n    let (carry, next): (bool, u8) = jet::increment_8(acc);\n    Right(next)\n}\n";
+        let t4 = format!("fn times_4(acc: u8, ctx: (), i: u2) -> Either<u8, u8> {cbody}");
+        let t16 = format!("fn times_16(acc: u8, ctx: (), i: u4) -> Either<u8, u8> {cbody}");
+        let use_t4 = |want: u8| format!("    let c: Either<u8, u8> = for_while::<times_4>(0, ());\n    assert!(jet::eq_8(unwrap_right::<u8>(c), {want}));\n");
+        let use_t16 = |want: u8| format!("    let d: Either<u8, u8> = for_while::<times_16>(0, ());\n    assert!(jet::eq_8(unwrap_right::<u8>(d), {want}));\n");
+        let mut cases: Vec<(String, String, bool)> = vec![];
+        for (good1, good2) in [(true, true), (false, true), (true, false)] {
+            let ok = good1 && good2;
+            let (d, t) = (if good1 { 1 } else { 2 }, if good2 { 3 } else { 7 });
+            cases.push(("drain then throttle".into(), format!("{drain}{throttle}fn main() {{\n{}{}}}\n", use_drain(d), use_throttle(t)), ok));
+            cases.push(("throttle then drain".into(), format!("{throttle}{drain}fn main() {{\n{}{}}}\n", use_throttle(t), use_drain(d)), ok));
+            let (a, b) = (if good1 { 4 } else { 16 }, if good2 { 16 } else { 4 });
+            cases.push(("times_4 then times_16".into(), format!("{t4}{t16}fn main() {{\n{}{}}}\n", use_t4(a), use_t16(b)), ok));
+            cases.push(("times_16 then times_4".into(), format!("{t16}{t4}fn main() {{\n{}{}}}\n", use_t16(b), use_t4(a)), ok));
+        }
+        rep.set("twin_loop_function_programs", json!(cases.len()));
+        for (label, text, should) in &cases {
+            rep.state();
+            rep.transition(1);
+            rep.nontrivial(1);
+            for debug in [false, true] {
+                rep.eval(1);
+                rep.trace(1);
+                match drive::build(text, simfony::Arguments::default(), debug) {
+                    Ok(built) => {
+                        let out = drive::DUMMY.with(|env| drive::run(&built, drive::witness_map(&[]), env));
+                        let ok = matches!((&out, should), (drive::RunOutcome::Success, true) | (drive::RunOutcome::Failure(_), false));
+                        rep.class(if ok { "twin-loops-ok" } else { "twin-loops-wrong" });
+                        if !ok {
+                            rep.violation(format!("C09:twin-loop-functions:{}", out.class()), format!("{label}: expected {}, got {out:?}", if *should { "success" } else { "failure" }), run_replay(text, &[], debug, if *should { "success" } else { "failure" }, out.class()));
+                        }
+                    }
+                    Err(o) => rep.violation("C09:not-compiled", format!("{label}: not compiled: {o:?}"), json!({"kind": "compile", "program": text, "expect": "accept", "observed": "reject"})),
+                }
+            }
+        }
+    }
     // Built is not Sync: rebuild per thread lazily
     let texts: Vec<(u16, String)> = programs.iter().map(|(w, p)| (*w, p.text.clone())).collect();
     drop(programs);
